@@ -70,6 +70,24 @@ CHECKS = [
              'include all shapes 2..5 per direction.',
      'note': 'Trusted: vf/refop.py (cross-checked against discretize), '
              'scipy.constants, numpy/scipy. Grids beyond 5 cells sampled.'},
+    {'id': 'C11', 'ref': 'DESIGN.md section 3 C11',
+     'technique': 'schedule-forcing runtime monitor: a wrapper around '
+                  'emg3d._multiprocessing.solve (inherited by the forked pool '
+                  'workers) takes a ticket, injects adversarial delays before '
+                  'the real solve and logs start/end events (O_APPEND); '
+                  'offline checker compares every source-frequency slot of '
+                  'every observable bit-by-bit with the sequential in-memory '
+                  'reference and checks exactly-once + that the completion '
+                  'order really differed',
+     'text': 'Forward, back-propagation and J v runs of 3-4 x 2-3 task '
+             'surveys under max_workers 1..16, tqdm on/off, file_dir on/off '
+             'and reverse/random/straggler/equal delay schedules gave '
+             'bit-identical fields, responses, misfit, gradient and J v in '
+             'every slot; every task started and ended exactly once; dozens '
+             'of distinct non-identity completion orders were observed.',
+     'note': 'BLAS/numba threads pinned to 1; only a forced sample of the n! '
+             'completion orders; relies on the fork start method (otherwise '
+             'inconclusive).'},
     {'id': 'C12', 'ref': 'DESIGN.md section 3 C12',
      'technique': 'history monitor: logged random sequences of public '
                   'Simulation operations on up to three live objects '
@@ -240,6 +258,23 @@ CHECKS = [
              'specification and their re-implementation in vf/c16.py; '
              'RuntimeError accepted without proving that no mesh exists; '
              'Laplace convention pinned.'},
+    {'id': 'C19', 'ref': 'DESIGN.md section 3 C19',
+     'technique': 'client-boundary monitor on Simulation(layered=True) / '
+                  'Model.extract_1d with an independent reference model '
+                  '(layer table + direct empymod.bipole call), differential '
+                  'across the five extraction methods, finite-difference '
+                  'consistency oracle for the layered gradient',
+     'text': 'On seeded laterally invariant isotropic/VTI models every '
+             'layered datum of all five extraction methods (random ellipse/'
+             'merge settings, with/without observed data and NaN gaps) '
+             'equalled a direct empymod.bipole call built from the generating '
+             'layer table and the documented electrode semantics; extraction '
+             'weights were a partition of unity; the layered gradient per '
+             'z-cell matched the misfit change under a uniform perturbation.',
+     'note': 'Trusted: the pinned empymod as the 1D reference modeller and '
+             'the documented semantics of the electrode classes; ~1 % of '
+             'runs judged at the measured (reduced) resolution of the '
+             'reference; data below ~8 skin depths only.'},
     {'id': 'C20', 'ref': 'DESIGN.md section 3 C20',
      'technique': 'runtime monitor on emg3d.Fourier (constructor, setters, '
                   'interpolate, freq2time) and on empymod.model.tem with '
